@@ -80,7 +80,7 @@ def run(tier, seed):
         return core.finish(chk, TRUSTED)
     deep = tier == "thorough" or not chk.proof["ok"]
     tmp = core.scratch_dir("c07")
-    nsets = 80 if deep else 14
+    nsets = 80 if deep else 24
     jobs = []
     llines = []
     lmeta = []
@@ -95,7 +95,14 @@ def run(tier, seed):
             per = [[(bytes(bytearray(r[:36]) + struct.pack("<H", rng.randrange(5)) + r[38:]) if rng.random() < 0.3 else r, p) for r, p in pk] for pk in per]
         else:
             per = [c06.corrupt(rng, pk, rng.choice([0.2, 0.5])) for pk in per]
-        per = [[(r, p) for r, p in pk] for pk in per]
+        # some packets without any payload (offset_to_next = 64), not last in the file
+        def strip(r):
+            b = bytearray(r)
+            struct.pack_into("<HH", b, 8, 64, 64)
+            return bytes(b), b""
+        per = [[(strip(r) if (r[38] == 1 and rng.random() < 0.4) else (r, p)) for r, p in pk] for pk in per]
+        # the data format may change from packet to packet within a link: the slot size is the current header's
+        per = [[(streams.reformat(r, p) if rng.random() < 0.25 else (r, p)) for r, p in pk] for pk in per]
         if not all(layout_agrees(r, p) for pk in per for r, p in pk):
             # keep the property's proviso: drop packets whose corrupted payload no longer looks like its header's format
             per = [[(r, p) for r, p in pk if layout_agrees(r, p)] for pk in per]
